@@ -38,6 +38,9 @@ SHAPES = {
     "children": [("Server", "Server", None, "variant"), ("HA", "Server-HA", "Server", "addon"), ("LB", "Server-LB", "Server", "addon")],
     "child-types": [("Server", "Server", None, "variant"), ("X", "Server-X", "Server", None)],
     "nested": [("Server", "Server", None, "variant"), ("HA", "Server-HA", "Server", "addon"), ("Deep", "Server-HA-Deep", "Server-HA", "addon")],
+    # one parent with children of every type side by side (addons are written as [addon-UID], the others as [variant-UID])
+    "mixed": [("Server", "Server", None, "variant"), ("HA", "Server-HA", "Server", "addon"), ("optional", "Server-optional", "Server", "optional"),
+              ("W", "Server-W", "Server", "variant")],
 }
 
 
